@@ -856,6 +856,7 @@ def run(res, tier, seed, replay=None):
                                     "x.ascon.ascon), several of one kind, one of each in both orders, -o, -e on an .ascon name, wrong password, "
                                     "missing file, existing output",
                 "p-with-k / o-with-several-inputs / no-input / no-terminal": "each with -e, -d and neither; the order in which main() reports them",
+                "existing-longer-output": "the output path already holds a longer file (decrypting over it, re-encrypting over an older image): only the new bytes may remain",
                 "duplicate-names": "the same input twice / three times (second encryption replaces the first), output = input, the same "
                                    "encrypted file twice; asconsum: a name given twice, a list naming a file twice",
                 "stdio": "\"-\" as input, as -o, as -k for asconcrypt (empty, 40 bytes, BUFSIZ+5 bytes, /dev/null; modified and truncated "
@@ -1054,6 +1055,11 @@ def explore(R, rng, tier, B):
         enc = C(img)
         g += [args("detect-direction", "N", P, [b"report.txt.ascon"], {b"report.txt.ascon": enc}),                       # -> report.txt
               args("detect-direction", "N", P, [b"report.txt.ascon"], {b"report.txt.ascon": enc, b"report.txt": C(b"older version")}),
+              # the output file already exists and is LONGER than what is written: it must be truncated, not overwritten in place
+              args("existing-longer-output", "N", P, [b"report.txt.ascon"], {b"report.txt.ascon": enc, b"report.txt": C(patterned(rng, 300))}),
+              args("existing-longer-output", "D", P, [b"a.ascon"], {b"a.ascon": enc, b"result.bin": C(patterned(rng, 5000))}, out=b"result.bin"),
+              args("existing-longer-output", "E", P, [b"notes.txt"], {b"notes.txt": C(doc), b"notes.txt.ascon": C(patterned(rng, 4000))}, rseed=rng.randrange(1, 1 << 30)),
+              args("existing-longer-output", "E", P, [b"notes.txt"], {b"notes.txt": C(b""), b"out.enc": C(patterned(rng, B + 77))}, out=b"out.enc", rseed=rng.randrange(1, 1 << 30)),
               args("detect-direction", "D", P, [b"stored.bin"], {b"stored.bin": enc}),                                   # -> stored.bin.decrypted
               args("detect-direction", "N", P, [b"a.ascon", b"b.ascon"], {b"a.ascon": enc, b"b.ascon": enc}),
               args("detect-direction", "N", P, [b"a.ascon", b"notes.txt"], {b"a.ascon": enc, b"notes.txt": C(doc)}),     # one of each: refused
